@@ -153,6 +153,18 @@ fn classify_hang(o: &SupOut, baseline_calls: u64) -> Option<String> {
     if o.total_calls > 100 * std::cmp::max(baseline_calls, 50) {
         return Some(format!("spin: {} system calls against {} in the fault-free run", o.total_calls, baseline_calls));
     }
+    // the same few calls over and over (also when the fault-free run itself never ends and gives no baseline)
+    if o.total_calls >= 20_000 && o.log.len() >= 2000 {
+        let tail = &o.log[o.log.len() - 2000..];
+        let distinct: std::collections::BTreeSet<(usize, Sys, Option<&[u8]>)> = tail.iter().map(|e| (e.th, e.sys, e.path.as_deref())).collect();
+        if distinct.len() <= 8 {
+            return Some(format!("spin: {} system calls, the last 2000 recorded ones are only {} distinct (thread, call, path) combinations, e.g. {}", o.total_calls, distinct.len(), tail[tail.len() - 1].short()));
+        }
+    }
+    // burning CPU without entering the kernel: nobody is held by the scheduler, yet most of the limit was spent computing
+    if !held && o.hang_cpu_ms >= 12_000 {
+        return Some(format!("spin: {} ms of CPU time consumed when the limit hit, {} system calls in total: {:?}", o.hang_cpu_ms, o.total_calls, o.hang_threads));
+    }
     None
 }
 
